@@ -638,8 +638,8 @@ class NBShim:
         class typed:
             class Dict:
                 @staticmethod
-                def empty(*a):
-                    return {}
+                def empty(key_type=None, value_type=None, *a):
+                    return TypedDictModel(key_type, value_type)
             List = NumbaList
         self.typed = typed
 
@@ -656,6 +656,56 @@ class NBShim:
 
 class NumbaList(list):
     pass
+
+
+def _wrap_to(nbtype, x):
+    """a value stored under a numba integer type: silently wrapped to its width (what the typed containers do)"""
+    bw = getattr(nbtype, "bitwidth", 64)
+    if nbtype is None or bw >= 64 or not (is_sym(x) or isinstance(x, int)):
+        return x
+    span = 2 ** bw
+    lo = -(2 ** (bw - 1)) if getattr(nbtype, "signed", True) else 0
+    if is_sym(x):
+        return ((x - lo) % span) + lo
+    return (int(x) - lo) % span + lo
+
+
+class TypedDictModel:
+    """numba.typed.Dict as an association list of guarded entries: lookups are if-then-else chains over the keys written so far,
+    keys and values are wrapped to the declared integer width, reading a missing key is an obligation"""
+    def __init__(self, key_type, value_type):
+        self.key_type = key_type
+        self.value_type = value_type
+        self.entries = []          # (key, value, guard) in insertion order; later entries win
+
+    def __len__(self):
+        if not self.entries:
+            return 0
+        if all(conc_bool(g) is True for _, _, g in self.entries) and not any(is_sym(k) for k, _, _ in self.entries):
+            return len({k for k, _, _ in self.entries})
+        raise Unsupported("len() of a typed dict with symbolic contents")
+
+    def sym_contains(self, k):
+        kk = _wrap_to(self.key_type, k)
+        return b_or(*[b_and(g, key == kk) for key, _, g in self.entries]) if self.entries else False
+
+    def __contains__(self, k):
+        return bool(self.sym_contains(k))
+
+    def __getitem__(self, k):
+        kk = _wrap_to(self.key_type, k)
+        rt = current()
+        rt.check("dict_key", self.sym_contains(k))
+        out = 0
+        for key, val, g in self.entries:
+            out = ite(b_and(g, key == kk), val, out)
+        return out
+
+    def store(self, k, v, guard, rt):
+        self.entries.append((_wrap_to(self.key_type, k), _wrap_to(self.value_type, v), guard))
+
+    def __setitem__(self, k, v):
+        self.store(k, v, True, current())
 
 
 class _ArrT:
